@@ -2,6 +2,7 @@
 (real Check objects on protobuf keys vs Model/RsaChecks.lean) + completeness predicates."""
 import math
 import gmpy2
+import os
 import framework as fw
 from framework import H, L, M, O, B, Batch, call
 import artifacts as art
@@ -108,6 +109,13 @@ class LllRecorder:
     self.rsa_util.lll.reduce = self.real
 
 
+# known finding D24: two 512-bit primes of Hamming weight 15 (found by the second independent review)
+D24_N = 0xffe0010000021fdefff00000400020000000000000000000000000000000000000000000000000000000000000000000000000000000000000fff0000000020200e00000000220010000000000000000000000000000000000000000000000000000000000000000000000000000000000000000000000000100000000000001
+D24_WHAT = ('CheckLowHammingWeight (default parameters) does not flag n = p*q with p = 0xfff0000000020001 << 448 | 1-style primes of '
+            'Hamming weight 15 (1024-bit n = ffe0010000021fde...0001): the clause "both primes have Hamming weight at most 32 => flagged" '
+            'fails on the real best-first search for sparse primes that start with a run of one-bits')
+
+
 def _lhw_default(n):
   """worker: the real CheckLowHammingWeight check object with its DEFAULT cutoff / maxsteps."""
   from paranoid_crypto.lib import rsa_single_checks as rs
@@ -131,13 +139,18 @@ def correspondence(rep, rng, tier):
     q_ = gen_rsa.exact_weight_prime(rng, bits // 2, wt)
     if p_ and q_ and p_ != q_:
       lhw_keys.append((bits, wt, p_ * q_))
-  # sparse primes whose set bits start with a RUN of ones (the partial factorisation's heuristic is
-  # temporarily worse than for scattered bits: a pruned search loses exactly these, seeded C05-3)
-  for lead in (5, 8):
-    p_ = gen_rsa.leading_ones_prime(rng, 512, lead, 3)
-    q_ = gen_rsa.leading_ones_prime(rng, 512, lead, 3)
-    if p_ != q_ and max(bin(p_).count('1'), bin(q_).count('1')) <= 32:
-      lhw_keys.append((1024, max(bin(p_).count('1'), bin(q_).count('1')), p_ * q_))
+  # fixed corpus (harness/corpus/c05_lhw.json): leading-ones and exact-weight keys that the unchanged tree flags;
+  # the search is deterministic, so these are gated (a miss is a failing input of the weight clause, seeded
+  # C05-3), while the freshly drawn keys above are statistics only: the clause is FALSE on the real code for
+  # some keys (known finding D24), so a fresh miss is not an alarm.
+  import json as _json
+  corpus = _json.load(open(os.path.join(fw.VERIF, 'harness', 'corpus', 'c05_lhw.json')))['keys']
+  if tier == 'quick':
+    corpus = [corpus[0], corpus[1], corpus[4], corpus[5]]
+  n_fresh = len(lhw_keys)
+  for e in corpus:
+    lhw_keys.append((1024, e['weight'], int(e['n'], 16)))
+  lhw_keys.append((1024, 15, D24_N))       # the witness of known finding D24
   lhw_pool = mp.Pool(min(4, max(1, len(lhw_keys))))
   lhw_async = lhw_pool.map_async(_lhw_default, [k[2] for k in lhw_keys])
 
@@ -552,12 +565,23 @@ def correspondence(rep, rng, tier):
     flagged = v.startswith('ok 1')
     planted.record('lowweight/%dbit/weight%d' % (bits, wt), True, flagged, n)
 
+    idx = [k[2] for k in lhw_keys].index(n)
+    gated_key = idx >= n_fresh and n != D24_N
+
     def pred(n=n, v=v, wt=wt, flagged=flagged):
       if not flagged:
         return 'both primes have Hamming weight %d <= 32 but CheckLowHammingWeight did not flag n=%x (%s)' % (wt, n, v)
       return None
-    b.add('chk.lhw %s %s %s' % (H(n), H(2500), H(10**6)), v, tag='weight<=32-default:' + v[:8],
-          canon=art.sort_model_verdict, pred=pred, always=True)
+    if n == D24_N:
+      d24 = any(f.get('id') == 'D24' for f in fw.load_known_findings())
+      if not flagged and d24:
+        rep.known.append('D24 ' + D24_WHAT)
+      elif flagged and d24:
+        rep.notes.append('listed finding D24 no longer reproduces on its replay input')
+      gated_key = not d24
+    b.add('chk.lhw %s %s %s' % (H(n), H(2500), H(10**6)), v,
+          tag='weight<=32-default:%s:%s' % ('corpus' if gated_key else 'fresh', v[:8]),
+          canon=art.sort_model_verdict, pred=pred if gated_key else None, always=gated_key)
   rep.absorb(b, b.run())
 
   # ---------------- CheckContinuedFractions
